@@ -1,6 +1,8 @@
 package main
 
-// The compiled record, looked at directly (hook compose/verif_c09.go, build tag verif).
+// The compiled record, looked at directly (hook compose/verif_c09.go, build tags verif && verif_c09wb: the
+// white-box group of C09 — record_wb.go reaches it; built without verif_c09wb, record_nowb.go says the
+// record is unavailable and the check runs its black-box oracles only: tags rec:unavailable, whitebox:unavailable).
 //
 //  1. Snapshot: everything reachable from the compiled object (through the closures Compile
 //     hides it behind, down to the *runner of every nested graph), from the builder it was
@@ -20,8 +22,6 @@ import (
 	"fmt"
 	"sort"
 	"strings"
-
-	"github.com/cloudwego/eino/compose"
 )
 
 type recSnap struct {
@@ -38,7 +38,7 @@ func takeSnap(o *object, ctxs ...context.Context) recSnap {
 	if len(roots) == 0 {
 		return recSnap{}
 	}
-	lines, n, fail := compose.VerifC09Snapshot(roots...)
+	lines, n, fail := hookSnapshot(roots...)
 	// readable paths: root<i> -> what it is
 	for i, r := range roots {
 		from, to := fmt.Sprintf("root%d", i), rootLabel(r)
@@ -126,7 +126,7 @@ func diffSnap(a, b recSnap) []string {
 // projString renders the projection of the compiled record canonically; the same format is
 // produced by rproj in coq/Model/IsolationEngine.v from the description given to the model.
 // Every list is sorted bytewise after rendering its items.
-func projString(g *compose.VerifC09Graph) string {
+func projString(g *hookGraph) string {
 	b2s := func(b bool) string {
 		if b {
 			return "1"
@@ -165,7 +165,7 @@ func objProj(o *object) string {
 	if o.proj == nil {
 		return ""
 	}
-	g := compose.VerifC09Project(o.proj)
+	g := hookProject(o.proj)
 	if g == nil {
 		return "unreachable"
 	}
